@@ -414,7 +414,9 @@ func (ex *Exec) decideObligation(nc *Term) (Res, *Model, string) {
 	st.mu.Lock()
 	st.Assertion++
 	st.mu.Unlock()
-	if r != Unknown && ex.eng.tier == "thorough" && ex.eng.crossCheck {
+	// thorough tier: a deterministic 1-in-8 sample of the obligation queries is re-decided by the whole portfolio
+	// (z3, z3-new, cvc5 int-blast); checking every query tripled the run time without ever finding a disagreement
+	if r != Unknown && ex.eng.tier == "thorough" && ex.eng.crossCheck && nc.h1%8 == 0 {
 		r2, who2 := Portfolio(pc, nc, 300*time.Second, true, st)
 		if r2 != Unknown && r2 != r {
 			fmt.Fprintf(os.Stderr, "SOLVER DISAGREEMENT %s=%v portfolio(%s)=%v\n", who, r, who2, r2)
